@@ -244,3 +244,31 @@ pub fn solve_linear_seed(
     }
     None
 }
+
+/// Readings for the first collection of a fresh generator whose measurement deltas are given as signed
+/// values (they may be negative or huge: the clock then steps backwards / jumps).
+pub fn crafted_prefix_signed(rng: &mut Prng, deltas: &[i64]) -> Vec<u64> {
+    let mut t = rng.range(1 << 40, 1 << 41);
+    let mut r = vec![t];
+    for d in deltas {
+        let prev = t;
+        t = t.wrapping_add(*d as u64);
+        r.push(prev);
+        r.push(t);
+        r.push(t);
+    }
+    r
+}
+
+/// Three consecutive 32-bit deltas x, y, z whose second difference is a non-zero multiple of 2^32 over
+/// the integers (so it is zero in 32-bit wrapping arithmetic): 2y - x - z = +-2^32.
+pub fn wrapping_second_difference(rng: &mut Prng) -> [i64; 3] {
+    loop {
+        let y = rng.range(1 << 29, (1 << 31) - 1) as i64 * if rng.chance(1, 2) { 1 } else { -1 };
+        let x = -(y.signum()) * rng.range(1, (1 << 31) - 1) as i64;
+        let z = 2 * y - x - y.signum() * (1i64 << 32);
+        if z > -(1i64 << 31) && z < (1i64 << 31) && z != 0 && z != y && x != y {
+            return [x, y, z];
+        }
+    }
+}
